@@ -1,6 +1,7 @@
 import PhysisModel.Driver.C06Case
 import PhysisModel.Spec.MdlPlaced
 import PhysisModel.Spec.MdlFill
+import PhysisModel.Base.Mutate
 namespace Physis.Driver.C06
 open Physis Physis.Proto Physis.Mdl Physis.Spec.Mdl Physis.Driver.C06Case
 
@@ -172,6 +173,13 @@ def handle (line : String) : String :=
       else
         answer input modelAns ["triv", if WF m then "outside:refs" else "outside:wf"]
     | _, _ => bad
+  | "mut" :: seed :: k :: "parse" :: toks =>
+    -- the encoded file with `k` damaged bytes (Base/Mutate.lean): model of the code vs the code
+    match parseModel toks, seed.toNat?, k.toNat? with
+    | some m, some seed, some k =>
+      let file := Mutate.mutate (encodeMdl m) seed.toUInt64 k (bias := 68 + 136 * (allMeshes m).length + 200)
+      answer ("parse " ++ Bytes.toHex file) (resultText (fromExisting file)) ["corr", "mut"]
+    | _, _, _ => bad
   | ["raw", h] =>
     match Bytes.ofHexFast h with
     | some bs => answer "=" (resultText (fromExisting bs)) ["corr"]
